@@ -52,6 +52,9 @@ func CheckC17(run *Run) {
 		g     *GenOutput
 		calls []*call
 		par   int
+		// client-level default headers (every second multiset): per-call headers must override them for
+		// their own call only, and a call without per-call headers must carry exactly the defaults
+		defaults [][2]string
 	}
 	var batches []*batch
 	for i, r := range reqs {
@@ -82,6 +85,9 @@ func CheckC17(run *Run) {
 		}
 		for k := 0; k < multisets; k++ {
 			b := &batch{r: r, g: g, par: []int{1, 2, 4, 8, 16, 32}[rng.Intn(6)]}
+			if k%2 == 0 {
+				b.defaults = [][2]string{{"X-Call-Tag", "dflt"}, {"X-Client-Tag", "c0"}}
+			}
 			seen := map[string]bool{}
 			for len(b.calls) < size {
 				x := rpcs[rng.Intn(len(rpcs))]
@@ -97,8 +103,12 @@ func CheckC17(run *Run) {
 				}
 				seen[key] = true
 				c := &call{svc: x.svc, md: x.md, ct: ct, req: rm, resp: vg.Random(out, 0.8)}
-				if rng.Intn(3) == 0 {
+				switch rng.Intn(4) {
+				case 0:
 					c.hdr = [][2]string{{"X-Call-Tag", fmt.Sprintf("t%d", len(b.calls))}}
+				case 1:
+					// a per-call header the client has no default for, next to an overridden default
+					c.hdr = [][2]string{{"X-Call-Tag", fmt.Sprintf("t%d", len(b.calls))}, {"X-Call-Extra", fmt.Sprintf("e%d", len(b.calls))}}
 				}
 				b.calls = append(b.calls, c)
 			}
@@ -108,7 +118,7 @@ func CheckC17(run *Run) {
 	mkCall := func(b *batch, c *call, id string) map[string]any {
 		return map[string]any{"id": id, "kind": "call", "pkg": b.r.ID, "service": c.svc.Name, "method": c.md.Name,
 			"req": WireHex(c.req), "wire": WireHex(c.req), "script": map[string]any{"resp": WireHex(c.resp)},
-			"opts": map[string]any{"ContentType": ctNames[c.ct], "CallHeaders": c.hdr}}
+			"opts": map[string]any{"ContentType": ctNames[c.ct], "CallHeaders": c.hdr, "DefaultHeaders": b.defaults}}
 	}
 	// isolated runs first (one runner process, sequential), then the concurrent multisets
 	var iso []any
@@ -147,7 +157,7 @@ func CheckC17(run *Run) {
 		for ci, c := range b.calls {
 			calls = append(calls, mkCall(b, c, fmt.Sprintf("%d.%d", bi, ci)))
 		}
-		conc = append(conc, map[string]any{"id": fmt.Sprint(bi), "kind": "conc", "pkg": b.r.ID, "calls": calls, "parallelism": b.par})
+		conc = append(conc, map[string]any{"id": fmt.Sprint(bi), "kind": "conc", "pkg": b.r.ID, "calls": calls, "parallelism": b.par, "shared_defaults": b.defaults})
 	}
 	concRaw, stderr, err := runScenariosStderr(s.Runner, conc)
 	crashed := strings.Contains(stderr, "fatal error:") || strings.Contains(stderr, "panic:")
@@ -194,21 +204,23 @@ func CheckC17(run *Run) {
 					note = fmt.Sprintf("call %s.%s: alone %s, concurrent %s", c.svc.Name, c.md.Name, short(isoRes), short(concRes))
 				}
 			}
-			// per-call options must reach only their own request
+			// per-call options must reach only their own request; client defaults reach every request
 			if len(sub.Requests) > 0 {
-				got := sub.Requests[0].Header["X-Call-Tag"]
-				want := ""
-				if len(c.hdr) > 0 {
-					want = c.hdr[0][1]
+				want := map[string]string{"X-Call-Tag": "", "X-Call-Extra": "", "X-Client-Tag": ""}
+				for _, kv := range b.defaults {
+					want[kv[0]] = kv[1]
 				}
-				g0 := ""
-				if len(got) > 0 {
-					g0 = got[0]
+				for _, kv := range c.hdr {
+					want[kv[0]] = kv[1]
 				}
-				if g0 != want {
-					bad++
-					if note == "" {
-						note = fmt.Sprintf("call %s.%s carried X-Call-Tag %q, expected %q", c.svc.Name, c.md.Name, g0, want)
+				for _, name := range []string{"X-Call-Tag", "X-Call-Extra", "X-Client-Tag"} {
+					got := sub.Requests[0].Header[name]
+					g0 := strings.Join(got, ",")
+					if g0 != want[name] {
+						bad++
+						if note == "" {
+							note = fmt.Sprintf("call %s.%s carried %s %q, expected %q", c.svc.Name, c.md.Name, name, g0, want[name])
+						}
 					}
 				}
 			}
